@@ -455,6 +455,31 @@ Lub(a, b) ==
        ELSE [err |-> "", spec |-> [nodes |-> r.nodes, nil |-> a.nil, ns |-> NsMerge(b.ns, a.ns)]]
 
 (***************************************************************************)
+(* Pickling (A11).  The state carries the whole node array, none_is_leaf   *)
+(* and the namespace; custom nodes are re-bound by registry lookup in the  *)
+(* LOADING process (recorded namespace first, then global); an unknown     *)
+(* custom type makes loading fail - it never yields a treespec.            *)
+(***************************************************************************)
+RegIn(reg, ns, cls) == \E i \in DOMAIN reg : reg[i][2] = cls /\ (reg[i][1] = "" \/ reg[i][1] = ns)
+Unpickle(s, reg) ==
+  IF \E p \in DOMAIN s.nodes : s.nodes[p].kind = NCUSTOM /\ ~RegIn(reg, s.ns, s.nodes[p].cls)
+  THEN Err("Runtime")
+  ELSE [err |-> "", spec |-> s]
+
+(***************************************************************************)
+(* Transposition (A10): outer with m > 0 leaves, inner with n > 0 leaves,  *)
+(* input leaves x[(i-1)*n + j]  (outer leaf i, inner leaf j)               *)
+(***************************************************************************)
+TransposeLeaves(xs, m, n) == [k \in 1..(m * n) |-> LET j == ((k - 1) \div m) + 1  i == ((k - 1) % m) + 1 IN xs[(i - 1) * n + j]]
+Transpose(outer, inner, xs) ==
+  IF outer.nil # inner.nil THEN Err("Value")
+  ELSE IF NumLeaves(outer) = 0 \/ NumLeaves(inner) = 0 THEN Err("Value")
+  ELSE IF outer.ns # "" /\ inner.ns # "" /\ outer.ns # inner.ns THEN Err("Value")
+  ELSE IF Len(xs) # NumLeaves(outer) * NumLeaves(inner) THEN Err("Type")
+  ELSE [err |-> "", leaves |-> TransposeLeaves(xs, NumLeaves(outer), NumLeaves(inner)),
+        spec |-> Compose(inner, outer).spec]
+
+(***************************************************************************)
 (* repr of a treespec (README notation: * for leaves, literal-like         *)
 (* containers, NoneIsLeaf / namespace suffixes).  Strings of the universe: *)
 (* see harness/vuniv.py (STRS, class names); addresses in function reprs   *)
